@@ -343,7 +343,7 @@ def main():
         c = m['case']; opsig = ','.join(sorted('%s%d' % o for o in ops_of(c['tree'])))
         key = (m['kind'], m['cfg'], c['ty'], c['kind'], c['aop'], opsig if m['kind'] != 'missing' else '')
         if key not in groups or c['n'] < groups[key][0]: groups[key] = (c['n'], m)
-    for key, (size, m) in sorted(groups.items(), key=lambda kv: str(kv[0]))[:40]:
+    for key, (size, m) in sorted(groups.items(), key=lambda kv: str(kv[0])):
         c = m['case']; cfgo = next(x for x in cfgs if x.name == m['cfg'])
         expr = ('r %s %s' % (AOPS[c['aop']], fastor_expr(c['tree'], TY[c['ty']][0]))) if c['kind'] != 'bool' else fastor_expr(c['tree'], TY[c['ty']][0])
         kkey = '%s:%s:%s:%s:n%d:%s' % (m['kind'], m['cfg'], c['ty'], c['stream'], c['n'], expr.replace(' ', ''))
